@@ -89,7 +89,8 @@ def gen_calls(ch: Choices, avoid: set, calm: bool) -> List[Dict[str, Any]]:
         if kind.startswith("create"):
             if ch.flag(1, 2, "maxtime"):
                 c["time_unit"] = ch.pick([TimeUnit.MICRO_SECONDS, TimeUnit.MILLI_SECONDS, TimeUnit.SECONDS]).name
-                c["max_time"] = 1 + ch.draw(1000, "maxtime")
+                # boundary values often, otherwise anything up to 1000
+                c["max_time"] = ch.pick([1, 1, 2, 255, 256, 1000]) if ch.flag(1, 3, "maxtime-edge") else 1 + ch.draw(1000, "maxtime")
         if kind in ("create_measure", "create_rsp"):
             form = ch.draw(3, "basisform")
             if form == 1:
